@@ -42,7 +42,9 @@ func (t *LongDataTypeEncoder) Encode(ctx context.Context, data []byte, format ty
 		return ctx, nil, base_mysql.ErrConvertToDataType
 	}
 
-	return ctx, nil, nil
+	// decrypted but not an integer literal (an envelope opened inside other bytes): it cannot be
+	// encoded as the declared type, so fall back to the type announced by the database
+	return ctx, nil, base_mysql.ErrConvertToDataType
 }
 
 // Decode implementation of Decode method of DataTypeEncoder interface for TypeLong
